@@ -384,6 +384,38 @@ class Body:
                 t = self.term(b)
                 if t["k"] == "call":
                     d[t["dest"]["l"]].append(("call", b, None, t))
+            # out-parameters of inlined helpers: `helper(&mut x, ..)` with `*p = v` inside the helper defines x. For a
+            # parameter local p of an inlined helper that is bound to `&mut x` (x a plain local), stores through p are
+            # recorded as definitions of x as well.
+            for q in sorted(self.inlined_params):
+                qd = [x for x in d.get(q, []) if x[0] == "stmt" and not x[3]["pl"]["p"]]
+                if len(qd) != 1 or qd[0][3]["rv"]["k"] != "use" or qd[0][3]["rv"]["ops"][0]["k"] not in ("copy", "move"):
+                    continue
+                r = qd[0][3]["rv"]["ops"][0]["pl"]
+
+                def referent(l_, depth=0):
+                    """the plain local a `&mut` temporary points at (through reborrows `&mut *t` and moves)"""
+                    rd = [x for x in d.get(l_, []) if x[0] == "stmt" and not x[3]["pl"]["p"]]
+                    if len(rd) != 1 or depth > 4:
+                        return None
+                    rv_ = rd[0][3]["rv"]
+                    if rv_["k"] == "ref" and rv_.get("mut"):
+                        if not rv_["pl"]["p"]:
+                            return rv_["pl"]["l"]
+                        if rv_["pl"]["p"] == ["*"]:
+                            return referent(rv_["pl"]["l"], depth + 1)
+                        return None
+                    if rv_["k"] == "use" and rv_["ops"][0]["k"] in ("copy", "move") and not rv_["ops"][0]["pl"]["p"]:
+                        return referent(rv_["ops"][0]["pl"]["l"], depth + 1)
+                    return None
+                target = referent(r["l"]) if not r["p"] else None
+                if target is None or 1 <= target <= self.nargs:
+                    continue
+                for x in list(d.get(q, [])):
+                    if x[0] == "stmt" and x[3]["pl"]["p"] and x[3]["pl"]["p"][0] == "*":
+                        st2 = dict(x[3])
+                        st2["pl"] = {"l": target, "p": list(x[3]["pl"]["p"][1:])}
+                        d[target].append(("stmt", x[1], x[2], st2))
             self._defs = d
         return self._defs
 
@@ -446,8 +478,78 @@ class Body:
             for st in self.blocks[b]["stmts"]:
                 if st["k"] == "assign" and (st["rv"]["k"] == "rawptr" or (st["rv"]["k"] == "ref" and st["rv"].get("mut"))):
                     cand.pop(st["rv"]["pl"]["l"], None)
-        self._flags = set(cand)
+        base = set(cand)
+        # second phase: bools whose every definition is a constant or a relay of a base flag (`x = flag`, `x = t.0` with the
+        # single-definition tuple `t = (flag, ..)`): a flag returned by an inlined helper and assigned in the caller
+        self._flags = base
+        self._relay_src = {}
+        ext = {}
+        mut_borrowed = set()
+        for b in range(self.n):
+            for st in self.blocks[b]["stmts"]:
+                if st["k"] == "assign" and (st["rv"]["k"] == "rawptr" or (st["rv"]["k"] == "ref" and st["rv"].get("mut"))):
+                    mut_borrowed.add(st["rv"]["pl"]["l"])
+        for _round in range(4):
+            known = base | set(ext)
+            grew = False
+            for l, dl in self.defs().items():
+                if self.locals[l]["ty"] != "bool" or l <= self.nargs or l in known or l in mut_borrowed:
+                    continue
+                srcs, ok = {}, bool(dl)
+                for d in dl:
+                    if d[0] != "stmt" or d[3]["pl"]["p"]:
+                        ok = False
+                        break
+                    rv = d[3]["rv"]
+                    if rv["k"] == "use" and rv["ops"][0]["k"] == "const" and rv["ops"][0].get("val") in ("0", "1"):
+                        continue
+                    src = self._relay_of(d[3], known)
+                    if src is None:
+                        ok = False
+                        break
+                    srcs[id(d[3])] = src
+                if ok and srcs:
+                    ext[l] = srcs
+                    grew = True
+            if not grew:
+                break
+        for l, srcs in ext.items():
+            self._relay_src.update(srcs)
+        self._flags = base | set(ext)
         return self._flags
+
+    def _relay_of(self, st, flags):
+        """the flag local an assignment statement copies (directly or out of a single-definition tuple), else None"""
+        rv = st["rv"]
+        if rv["k"] != "use" or rv["ops"][0]["k"] not in ("copy", "move"):
+            return None
+        pl = rv["ops"][0]["pl"]
+        if not pl["p"] and pl["l"] in flags:
+            return pl["l"]
+        if len(pl["p"]) == 1 and isinstance(pl["p"][0], dict) and "f" in pl["p"][0]:
+            td = self.defs().get(pl["l"], [])
+            k = pl["p"][0]["f"]
+            if len(td) == 1 and td[0][0] == "stmt" and td[0][3]["rv"]["k"] == "aggregate" and td[0][3]["rv"].get("ak") == "tuple" \
+                    and isinstance(k, int) and k < len(td[0][3]["rv"]["ops"]):
+                op = td[0][3]["rv"]["ops"][k]
+                if op["k"] in ("copy", "move") and not op["pl"]["p"] and op["pl"]["l"] in flags:
+                    return op["pl"]["l"]
+        return None
+
+    def _flag_relay(self):
+        """single-definition bool local -> flag local it copies (directly or out of a single-definition tuple)"""
+        if getattr(self, "_relay", None) is not None:
+            return self._relay
+        flags = self.flag_locals()
+        out = {}
+        for l, dl in self.defs().items():
+            if self.locals[l]["ty"] != "bool" or len(dl) != 1 or dl[0][0] != "stmt" or l in flags or dl[0][3]["pl"]["p"]:
+                continue
+            src = self._relay_of(dl[0][3], flags)
+            if src is not None:
+                out[l] = src
+        self._relay = out
+        return out
 
     def stable_bools(self):
         """bool locals with exactly one definition that are never mutably borrowed: once computed, every
@@ -583,13 +685,21 @@ class Body:
                 dl = st["pl"]["l"]
                 rv = st["rv"]
                 if dl in fidx and fidx[dl] < nflags:
-                    fl[fidx[dl]] = int(rv["ops"][0]["val"])
+                    if rv["ops"][0]["k"] == "const":
+                        fl[fidx[dl]] = int(rv["ops"][0]["val"])
+                    else:
+                        src = self._relay_src.get(id(st))
+                        fl[fidx[dl]] = fl[fidx[src]] if src is not None and src in fidx else None
                     continue
                 if dl in fidx and fidx[dl] >= nstable:
                     fl[fidx[dl]] = self._option_assign_value(st)   # status option: Some / None / unknown
                     continue
                 if dl in fidx:
-                    fl[fidx[dl]] = None   # (re)definition of a stable bool: value unknown again
+                    # (re)definition of a stable bool: value unknown again — unless it is a relay of a tracked flag
+                    # (`was = flag`, or `was = t.0` with `t = (flag, ..)`: the shape a flag takes when it is returned by an
+                    # inlined helper and taken apart by the caller)
+                    src = self._flag_relay().get(dl)
+                    fl[fidx[dl]] = fl[fidx[src]] if src is not None and src in fidx else None
                     continue
                 if rv["k"] == "ref" and rv.get("mut") and not rv["pl"]["p"] and rv["pl"]["l"] in fidx and fidx[rv["pl"]["l"]] >= nstable:
                     fl[fidx[rv["pl"]["l"]]] = None   # `&mut status`: may be changed through the reference
